@@ -602,7 +602,7 @@ Section TargetRun.
     unfold res, stream_run. cbv zeta.
     change (abs_start (j_first c) (j_start c) match hub_head (w_hub w) with Some (r, _) => rn r | None => 0 end)
       with (run_start c w).
-    rewrite Hstart, Hstop, Hfilter, Hmode, Hcur. cbn [N.eqb negb andb].
+    rewrite (file_end_nostop c merged_end Hstop), Hstart, Hstop, Hfilter, Hmode, Hcur. cbn [N.eqb negb andb].
     unfold live_try. rewrite Hmode, Hcur. cbn [N.eqb].
     destruct (h_ready (w_hub w)) eqn:Hrd; cbn [negb]; [|apply Hfile].
     destruct (hub_through_cursor (h_f (w_hub w)) start cu) as [burst| | |] eqn:Hb;
